@@ -706,13 +706,43 @@ func ruleUps1(c *Ctx, r *Reporter) {
 			return
 		}
 		n++
-		var flag *ssa.Parameter
+		// the flag: a bool parameter named upsert, or the Upsert field of a struct parameter (the operation passed whole)
+		isFlag := func(v ssa.Value) bool {
+			switch x := v.(type) {
+			case *ssa.Parameter:
+				return x.Name() == "upsert" && x.Parent() == fn
+			case *ssa.Field:
+				_, fromParam := x.X.(*ssa.Parameter)
+				return fromParam && structFieldOf(x).Name() == "Upsert"
+			case *ssa.UnOp:
+				if fa, ok := x.X.(*ssa.FieldAddr); ok && x.Op == token.MUL && structFieldOf(fa).Name() == "Upsert" {
+					if _, fromParam := stripValue(fa.X).(*ssa.Parameter); fromParam {
+						return true
+					}
+					if al, ok := fa.X.(*ssa.Alloc); ok {
+						// the parameter's own cell
+						whole, field, ok := structCellStores(al)
+						if ok && len(whole) == 1 && len(field[fa.Field]) == 0 {
+							_, fromParam := whole[0].Val.(*ssa.Parameter)
+							return fromParam
+						}
+					}
+				}
+			}
+			return false
+		}
+		hasFlag := false
 		for _, p := range fn.Params {
 			if p.Name() == "upsert" {
-				flag = p
+				hasFlag = true
 			}
 		}
-		if flag == nil {
+		allInstrs(fn, func(x ssa.Instruction) {
+			if v, ok := x.(ssa.Value); ok && isFlag(v) {
+				hasFlag = true
+			}
+		})
+		if !hasFlag {
 			r.bad(key, c.pos(call.Pos()), "no upsert flag parameter")
 			return
 		}
@@ -727,7 +757,7 @@ func ruleUps1(c *Ctx, r *Reporter) {
 			if !domT {
 				return
 			}
-			if iff.Cond == ssa.Value(flag) {
+			if isFlag(iff.Cond) {
 				flagSet = true
 			}
 			if bo, ok := iff.Cond.(*ssa.BinOp); ok && bo.Op == token.EQL {
